@@ -265,7 +265,7 @@ def run_case(spec):
 
 def run_equiv(name, dsn):
     ds0 = data.dataset(dsn)
-    ds = data.scaled(ds0, 64.0)              # integer-valued coordinates
+    ds = data.scaled(ds0, 64.0)              # integer-valued coordinates (signed, up to a few hundred)
     assert np.array_equal(ds.X, np.round(ds.X))
     kind = zoo.KIND[name]
     viol, sigs = [], set()
@@ -307,6 +307,35 @@ def run_equiv(name, dsn):
                               '(relative deviation %.3g > %.0e) [%s]' % (vn, dev, tol, clab), [vn, clab], deviation=dev))
             if isinstance(Av, np.ndarray) and vn != 'strided_view' and not np.array_equal(Av, variants[vn] if False else Av):
                 pass
+        # small and unsigned integer dtypes (differences must not wrap, squares must not overflow): a non-negative copy of the data
+        shift = ds0.X.min(0)
+        fac = 2.0 ** np.floor(np.log2(250.0 / (ds0.X - shift).max()))
+        dsu = data.scaled(ds0, 1.0)
+        dsu.X = np.round((ds0.X - shift) * fac)
+        dsu.pairs, dsu.quads, dsu.quads_sat, dsu.trip = (dsu.X[ds0.pairs_idx], dsu.X[ds0.quads_idx], dsu.X[ds0.quads_sat_idx],
+                                                         dsu.X[ds0.trip_idx])
+        argsu = zoo.train_args(name, dsu, 'formed')
+        Au = np.array(argsu[0], dtype=float)
+        try:
+            refu = zoo.make(name, dsu, **over).fit(Au.copy(), *argsu[1:]).get_mahalanobis_matrix()
+        except Exception:
+            refu = None
+        if refu is not None:
+            for dt in (np.uint8, np.uint16, np.int16, np.int32):
+                evals += 1
+                vn = np.dtype(dt).name
+                try:
+                    Mu = zoo.make(name, dsu, **over).fit(Au.astype(dt), *argsu[1:]).get_mahalanobis_matrix()
+                except Exception as ex:
+                    viol.append(V(name + '.fit', 'equivalent_raises', 'fit on the %s form of the same numbers raised %s: %s'
+                                  % (vn, type(ex).__name__, str(ex)[:100]), [vn, clab]))
+                    continue
+                dev = float(np.abs(Mu - refu).max() / max(np.abs(refu).max(), 1e-300)) if np.isfinite(Mu).all() else np.inf
+                worst = max(worst, dev / tol)
+                sigs.add((name, clab, vn, dsn))
+                if not dev <= tol:
+                    viol.append(V(name + '.fit', 'equivalent_differs', 'fit on the %s form of the same numbers gives another metric (relative '
+                                  'deviation %.3g) [%s]' % (vn, dev, clab), [vn, clab], deviation=dev))
         # the caller's array must be left as it was (float64 C input)
         A2 = A.copy()
         zoo.make(name, ds, **over).fit(A2, *rest)
